@@ -74,6 +74,9 @@ struct World {
   bool have_poll = false;
   // run bookkeeping
   bool in_run = false, draining = false, failed = false;
+  bool poll_reported_runnable = false;  // the previous poll of this call reported a pending registration ready
+  long cb_since_poll = 0;
+  int max_inst = 400;
   long cb_in_run = 0;
   bool stop_seen = false;
   int expect_rc = 0;
@@ -150,6 +153,14 @@ static bool any_pending_timer(int64_t *dmax_min) {
 extern "C" int __wrap_poll(struct pollfd *fds, nfds_t n, int timeout) {
   World &w = *W;
   w.n_polls++;
+  // C05: a poll which reported a pending socket registration ready is followed by a callback, not by another poll.  (Not so for timers: the
+  // loop legitimately re-polls with a zero timeout between waking for a deadline and running the timer.)
+  if (w.in_run && w.poll_reported_runnable && w.cb_since_poll == 0 && !w.stop_seen && !w.failed)
+    w.fail(5, "polled-again-without-dispatch",
+           "the previous poll of this events_run/events_spin reported a registered descriptor ready, no interrupt was requested, "
+           "and the loop polled again without running any callback");
+  w.poll_reported_runnable = false;
+  w.cb_since_poll = 0;
   apply_sched();
   // C05 (e): bound on the timeout argument
   {
@@ -252,6 +263,14 @@ extern "C" int __wrap_poll(struct pollfd *fds, nfds_t n, int timeout) {
     }
   }
   if (nready_fd >= 2) w.n_poll_multi++;
+  if (w.in_run)
+    for (nfds_t i = 0; i < n; i++) {
+      int fd = fds[i].fd - FD_BASE;
+      if (fd < 0 || fd >= MAXFD || !fds[i].revents) continue;
+      for (int d = 0; d < 2; d++)
+        if (w.net[fd][d] && w.net[fd][d]->state == PENDING && ((fds[i].revents & (d ? POLLOUT : POLLIN)) || (fds[i].revents & (POLLHUP | POLLERR))))
+          w.poll_reported_runnable = true;
+    }
   if (blocked && w.in_run) {
     if (cnt > 0) {
       // woke because of readiness of something registered
@@ -278,7 +297,7 @@ static void api_begin() { W->call_min = W->call_max = -1; }
 
 static void do_register(int j, bool in_cb) {
   World &w = *W;
-  if (w.tpls.empty() || (int)w.insts.size() >= MAX_INST) return;
+  if (w.tpls.empty() || (int)w.insts.size() >= w.max_inst) return;
   j = ((j % (int)w.tpls.size()) + (int)w.tpls.size()) % (int)w.tpls.size();
   const Tpl &t = w.tpls[j];
   std::unique_ptr<Inst> x(new Inst);
@@ -314,6 +333,7 @@ static void do_register(int j, bool in_cb) {
     w.maxfds_registered = std::max(w.maxfds_registered, cnt);
   } else {
     x->timeout = t.p1 < 0 ? 0 : t.p1;
+    if (x->timeout >= 2147483647LL * 1000000) w.cls.insert("timer-beyond-2^31-seconds");
     struct timeval tv = {(time_t)(x->timeout / 1000000), (suseconds_t)(x->timeout % 1000000)};
     api_begin();
     x->cookie = shim_timer_register(cb, x.get(), tv.tv_sec, tv.tv_usec);
@@ -475,6 +495,7 @@ static int cb(void *c) {
     w.fail(4, x->state == FIRED ? "callback-twice" : "callback-after-cancel",
            std::string("callback invoked for an instance that is ") + (x->state == FIRED ? "already fired" : "cancelled") + " (kind " + std::to_string(x->kind) + ")");
     w.cb_in_run++;
+    w.cb_since_poll++;
     return 0;
   }
   check_choice(x);
@@ -494,6 +515,7 @@ static int cb(void *c) {
     w.fail(4, "timer-early", "timer callback ran at clock " + std::to_string(w.now) + " before its deadline " + std::to_string(dl_min(x)));
   x->state = FIRED;
   w.cb_in_run++;
+  w.cb_since_poll++;
   if (w.done_after >= 0 && w.cb_in_run >= w.done_after) w.done_flag = 1;
   if (w.draining || w.failed) {
     w.last_cb_end = ++w.seqctr;
@@ -524,6 +546,11 @@ static int cb(void *c) {
     case 5:
       advance(a.a1 < 0 ? 0 : std::min<int64_t>(a.a1, 5000000));
       break;
+    case 6:  // hand-over: cancel a pending registration and make the same one again at once (new owner of a connection)
+      do_cancel((int)a.a1, true, x);
+      do_register((int)a.a1, true);
+      w.cls.insert("cancel-and-reregister-in-callback");
+      break;
     }
   }
   if (w.done_after >= 0 && !anything_pending()) w.done_flag = 1;
@@ -548,7 +575,7 @@ static bool anything_pending() {
   return false;
 }
 
-static void run_once(int spin_n) {
+static void run_once(int spin_n, bool long_spin = false) {
   World &w = *W;
   if (!anything_pending()) return;
   w.in_run = true;
@@ -560,6 +587,8 @@ static void run_once(int spin_n) {
   w.must_run = false;
   w.done_flag = 0;
   w.done_after = spin_n > 0 ? spin_n : -1;
+  w.poll_reported_runnable = false;
+  w.cb_since_poll = 0;
   w.runnable_at_entry = false;
   for (auto &p : w.insts) {
     if (p->state != PENDING) continue;
@@ -580,7 +609,8 @@ static void run_once(int spin_n) {
     long guard_insts = 0;
     for (auto &p : w.insts)
       if (p->state == PENDING) guard_insts++;
-    if (w.done_after > guard_insts) w.done_after = guard_insts;
+    if (w.done_after > guard_insts && !long_spin) w.done_after = guard_insts;  // a long spin lives on re-registration and ends when nothing is pending
+    if (long_spin) w.cls.insert(spin_n > 4096 ? "spin>4096-callbacks" : "long-spin");
     // only network registrations or timers keep a blocked loop alive; with immediates only it returns
     rc = shim_events_spin(&w.done_flag);
     w.cls.insert("spin");
@@ -610,13 +640,15 @@ static Outcome run_case(const Case &c, int oracle) {
   w.sched_last = w.now;
   shim_silence();
   for (auto &op : c)
+    if (op.k == "longspin") w.max_inst = 12000;
+  for (auto &op : c)
     if (op.k == "tpl" && op.a.size() >= 4 && w.tpls.size() < 24) {
       Tpl t;
       t.kind = (int)(((op.a[0] % 3) + 3) % 3);
       t.p1 = op.a[1];
       t.p2 = op.a[2];
       t.rc = (int)op.a[3];
-      for (size_t i = 4; i + 2 < op.a.size() && t.acts.size() < 6; i += 3) t.acts.push_back({(int)(((op.a[i] % 6) + 6) % 6), op.a[i + 1], op.a[i + 2]});
+      for (size_t i = 4; i + 2 < op.a.size() && t.acts.size() < 6; i += 3) t.acts.push_back({(int)(((op.a[i] % 7) + 7) % 7), op.a[i + 1], op.a[i + 2]});
       w.tpls.push_back(t);
     }
   long nruns = 0;
@@ -638,6 +670,9 @@ static Outcome run_case(const Case &c, int oracle) {
       nruns++;
     } else if (op.k == "spin") {
       run_once((int)std::max<int64_t>(1, std::min<int64_t>(A(0), 5)));
+      nruns++;
+    } else if (op.k == "longspin") {
+      run_once((int)std::max<int64_t>(1, std::min<int64_t>(A(0), 11000)), true);
       nruns++;
     } else if (op.k == "sched") {
       int fd = (int)(((A(1) % MAXFD) + MAXFD) % MAXFD);
@@ -720,6 +755,10 @@ static Outcome run_case(const Case &c, int oracle) {
 // ------------------------------------------------------------------ generator
 static const std::vector<int64_t> TIMEOUTS = {0, 1, 999, 1000, 1001, 1500, 1999, 2000, 10000, 250000, 1000000, 3000000};
 
+// "never" / far-future timeouts (microseconds): around 2^31 and 2^32 seconds, where a narrowed difference of seconds changes sign or vanishes
+static const std::vector<int64_t> FAR_TIMEOUTS = {2147483000000LL, 2147483000001LL, 2147483500000LL, 2147483646000LL, 2147483647000LL, 2147483647001LL, 2147483700000LL, 2147484000000LL,
+                                                  2147483647LL * 1000000, 2147483648LL * 1000000, 3000000000LL * 1000000 + 250000, 4294967296LL * 1000000, 4294967303LL * 1000000,
+                                                  86400LL * 365 * 1000000};
 static rc::Gen<Case> gen_prog(int tier) {
   return rc::gen::exec([tier]() {
     Case c;
@@ -735,14 +774,14 @@ static rc::Gen<Case> gen_prog(int tier) {
         p1 = *rc::gen::weightedOneOf<int>({{3, range<int>(0, std::min(nfd, 4) - 1)}, {1, range<int>(0, nfd - 1)}});
         p2 = *range<int>(0, 1);
       } else
-        p1 = *rc::gen::elementOf(TIMEOUTS);
+        p1 = *range<int>(0, 11) ? *rc::gen::elementOf(TIMEOUTS) : *rc::gen::elementOf(FAR_TIMEOUTS);
       int rcv = *rc::gen::weightedElement<int>({{12, 0}, {1, 1}, {1, 7}, {1, -3}});
       std::vector<int64_t> a = {kind, p1, p2, rcv};
       int na = *rc::gen::weightedElement<int>({{3, 0}, {3, 1}, {2, 2}, {1, 3}, {1, 4}});
       for (int i = 0; i < na; i++) {
-        int at = *rc::gen::weightedElement<int>({{5, 0}, {5, 1}, {1, 2}, {3, 3}, {1, 4}, {1, 5}});
+        int at = *rc::gen::weightedElement<int>({{5, 0}, {5, 1}, {1, 2}, {3, 3}, {1, 4}, {1, 5}, {2, 6}});
         int64_t a1 = 0, a2 = 0;
-        if (at <= 2)
+        if (at <= 2 || at == 6)
           a1 = *range<int>(0, ntpl - 1);
         else if (at == 3) {
           a1 = *range<int>(0, std::min(nfd, 4) - 1);
@@ -811,6 +850,33 @@ static rc::Gen<Case> gen_prog(int tier) {
   });
 }
 
+// Long spins: 1..3 cycles immediate -> socket -> timer -> immediate ..., each callback registering the next, all inside ONE events_spin
+static rc::Gen<Case> gen_longspin(int tier) {
+  return rc::gen::exec([tier]() {
+    Case c;
+    int ncyc = *range<int>(1, 3);
+    for (int k = 0; k < ncyc; k++) {
+      int b = 3 * k;
+      std::vector<int> order = {IMM, NET, TMR};
+      if (*range<int>(0, 1)) std::swap(order[1], order[2]);
+      for (int j = 0; j < 3; j++) {
+        int kind = order[j];
+        int64_t p1 = kind == IMM ? *range<int>(0, 31) : kind == NET ? k : *rc::gen::elementOf(std::vector<int64_t>{0, 0, 1, 1000, 2500});
+        int64_t p2 = kind == NET ? *range<int>(0, 1) : 0;
+        c.push_back(Op("tpl", {kind, p1, p2, 0, 0, b + (j + 1) % 3, 0}));
+      }
+    }
+    for (int k = 0; k < ncyc; k++) c.push_back(Op("ready", {k, 3}));
+    for (int k = 0; k < ncyc; k++) c.push_back(Op("reg", {3 * k + *range<int>(0, 2)}));
+    if (*range<int>(0, 3) == 0) c.push_back(Op("run"));
+    int64_t n = *rc::gen::weightedOneOf<int64_t>({{3, range<int64_t>(4090, 4102)}, {2, range<int64_t>(8186, 8198)}, {1, range<int64_t>(200, 4000)}, {2, range<int64_t>(4103, tier ? 11000 : 9000)}});
+    c.push_back(Op("longspin", {n}));
+    int tail = *range<int>(0, 3);
+    for (int i = 0; i < tail; i++) c.push_back(*range<int>(0, 2) ? Op("run") : Op("spin", {*range<int>(1, 3)}));
+    return c;
+  });
+}
+
 int main(int argc, char **argv) {
   const char *G =
       "programs: <=24 registration templates (immediate prio | socket fd/dir | timer timeout) whose callbacks perform generated actions "
@@ -834,7 +900,16 @@ int main(int argc, char **argv) {
          gen_prog, [](const Case &c) { return run_case(c, 5); }};
   s5.fork = true;
   s5.timeout_s = 5;
+  Sub s5l{"c05spin",
+          "1..3 cycles of registrations (immediate -> socket -> timer -> ..., each callback registering the next; descriptors permanently ready, timers 0..2.5 ms) kept "
+          "alive inside ONE events_spin until N callbacks have run, N in 200..11000 with weight on 4096+-6 and 8192+-6; then a few more run/spin calls and the drain. "
+          "Oracle: the C05 monitor (dispatch choice, progress, poll-timeout bound, a poll that reported a registered descriptor ready is followed by a callback). "
+          "Non-trivial: as c05",
+          gen_longspin, [](const Case &c) { return run_case(c, 5); }};
+  s5l.fork = true;
+  s5l.timeout_s = 60;
   subs.push_back(s4);
   subs.push_back(s5);
+  subs.push_back(s5l);
   return pbt_main(argc, argv, subs);
 }
